@@ -15,19 +15,19 @@ CONSTANTS
   Keys = {}
   HelperNames = {}
   Plan <- NoPlan
-  Systems <- Sys_all
-  KTimes <- KT_all
-  KConcs <- KC_all
+  Systems = {"uni", "chain"}
+  KTimes = {"s"}
+  KConcs = {"M"}
   Wrongs <- W_none
   CPlans <- Plans_two
   TUnits = {"s"}
-  KRegs <- KRegs6
+  KRegs <- KRegs2
   Outs <- Outs_one
-  Modes = {"inline", "named"}
+  Modes = {"solver"}
   EqTemplates = {}
   EqWrongs = {}
-  CallKinds <- Calls_none
-  MaxCalls = 0
+  CallKinds <- Calls_all
+  MaxCalls = 3
 INVARIANT RegistryIndependent
 INVARIANT WrittenIsPhysical
 INVARIANT RefusedOnlyIfWrongDimension
